@@ -320,6 +320,9 @@ func guardsOf(b *ssa.BasicBlock) []Guard {
 			out = append(out, flattenCond(iff.Cond, false, iff)...)
 		}
 	}
+	// a condition that is itself the value of `a && b` (positive) or `a || b` (negative), e.g. the
+	// case expression of a tagless switch, stands for its conjuncts
+	out = expandBoolGuards(out, 0)
 	// a transparent helper runs under the conditions of its call site (transparent.go)
 	if fn := b.Parent(); isHelper(fn) {
 		if site := helperCallSite(fn); site != nil && site.Block() != nil && site.Parent() != fn {
@@ -327,6 +330,92 @@ func guardsOf(b *ssa.BasicBlock) []Guard {
 		}
 	}
 	return out
+}
+
+func expandBoolGuards(gs []Guard, depth int) []Guard {
+	if depth > 3 {
+		return gs
+	}
+	var out []Guard
+	changed := false
+	for _, g := range gs {
+		ph, isPhi := g.Cond.(*ssa.Phi)
+		if !isPhi {
+			out = append(out, g)
+			continue
+		}
+		var alts [][]Guard
+		var ok bool
+		if g.Pol {
+			alts, ok = truthAlts(ph, 0)
+		} else {
+			alts, ok = falseAlts(ph, 0)
+		}
+		if !ok || len(alts) != 1 {
+			out = append(out, g)
+			continue
+		}
+		changed = true
+		out = append(out, g) // keep the original as well
+		for _, a := range alts[0] {
+			dup := false
+			for _, o := range out {
+				if o.Cond == a.Cond && o.Pol == a.Pol {
+					dup = true
+				}
+			}
+			if !dup {
+				out = append(out, a)
+			}
+		}
+	}
+	if changed {
+		return expandBoolGuards(out, depth+1)
+	}
+	return out
+}
+
+// falseAlts: the alternatives under which boolean value v is false (dual of truthAlts).
+func falseAlts(v ssa.Value, depth int) (alts [][]Guard, ok bool) {
+	if depth > 6 {
+		return nil, false
+	}
+	if c, isC := constBool(v); isC {
+		if !c {
+			return [][]Guard{{}}, true
+		}
+		return nil, true
+	}
+	switch x := v.(type) {
+	case *ssa.UnOp:
+		if x.Op == token.NOT {
+			return [][]Guard{{Guard{Cond: x.X, Pol: true}}}, true
+		}
+	case *ssa.Phi:
+		for i, e := range x.Edges {
+			pb := x.Block().Preds[i]
+			sub, ok := falseAlts(e, depth+1)
+			if !ok {
+				return nil, false
+			}
+			if len(sub) == 0 {
+				continue
+			}
+			var edge []Guard
+			edge = append(edge, guardsOf(pb)...)
+			if len(pb.Instrs) > 0 {
+				if iff, isIf := pb.Instrs[len(pb.Instrs)-1].(*ssa.If); isIf && pb.Succs[0] != pb.Succs[1] {
+					pol := pb.Succs[0] == x.Block()
+					edge = append(edge, flattenCond(iff.Cond, pol, iff)...)
+				}
+			}
+			for _, s := range sub {
+				alts = append(alts, append(append([]Guard{}, edge...), s...))
+			}
+		}
+		return alts, true
+	}
+	return [][]Guard{{Guard{Cond: v, Pol: false}}}, true
 }
 
 // flattenCond unfolds negations.
